@@ -314,7 +314,7 @@ def units(tier):
     for salt in (None, "s", "é'\\"):
         for split in (("uid",), ("b", "a"), None):
             a = ("prog", "exp", salt, split, ("if", ("cmp", ("id", "f"), ">=", ("lit", 0)), ("ret", wv), ("else", ("ret", (("Z", "1"), ("Y", "1"))))))
-            ids = list(range(12)) + [0.0, -0.0, 1.0, True, (1,), (1.0,), "1", None, 2**70]  # equal-but-differently-printing values in a row
+            ids = list(range(12)) + [0.0, -0.0, 1.0, True, (1,), (1.0,), "1", None, 2**70, "\udce9x", "a\ud800", 10**5000]  # (the last three cannot be keyed: the same error on both sides)  # equal-but-differently-printing values in a row
             envs = [dict({"f": f}, **({s: i for s in split} if split else {})) for f in (-1, 0, 1) for i in ids]
             envs.append({"f": 1})  # missing splitter (when declared): same error class in both
             out.append(("case", "weighted", a, envs))
